@@ -6,35 +6,27 @@ open Dassh.Table Dassh.Gen.C08T2
 
 def pi_rot1 : Nat := 0xf00e00d00c00b00a009008007006011010004003002001000005
 def sg_rot1 : Nat := 0x5004003002001006000
-def cert_rot1 : Bool := autoCert ncool nint tyf nb donorCW donorCW (permOf pi_rot1 12)
-  && autoCert ncool nint tyf nb donorCCW donorCCW (permOf pi_rot1 12)
-  && pinAutoCert npin pinrow (permOf pi_rot1 12) (permOf sg_rot1 12)
-def pi_rot2 : Nat := 0xd00c00b00a00900800700601101000f00e003002001000005004
-def sg_rot2 : Nat := 0x4003002001006005000
-def cert_rot2 : Bool := autoCert ncool nint tyf nb donorCW donorCW (permOf pi_rot2 12)
-  && autoCert ncool nint tyf nb donorCCW donorCCW (permOf pi_rot2 12)
-  && pinAutoCert npin pinrow (permOf pi_rot2 12) (permOf sg_rot2 12)
-def pi_rot3 : Nat := 0xb00a00900800700601101000f00e00d00c002001000005004003
-def sg_rot3 : Nat := 0x3002001006005004000
-def cert_rot3 : Bool := autoCert ncool nint tyf nb donorCW donorCW (permOf pi_rot3 12)
-  && autoCert ncool nint tyf nb donorCCW donorCCW (permOf pi_rot3 12)
-  && pinAutoCert npin pinrow (permOf pi_rot3 12) (permOf sg_rot3 12)
-def pi_rot4 : Nat := 0x900800700601101000f00e00d00c00b00a001000005004003002
-def sg_rot4 : Nat := 0x2001006005004003000
-def cert_rot4 : Bool := autoCert ncool nint tyf nb donorCW donorCW (permOf pi_rot4 12)
-  && autoCert ncool nint tyf nb donorCCW donorCCW (permOf pi_rot4 12)
-  && pinAutoCert npin pinrow (permOf pi_rot4 12) (permOf sg_rot4 12)
-def pi_rot5 : Nat := 0x700601101000f00e00d00c00b00a009008000005004003002001
-def sg_rot5 : Nat := 0x1006005004003002000
-def cert_rot5 : Bool := autoCert ncool nint tyf nb donorCW donorCW (permOf pi_rot5 12)
-  && autoCert ncool nint tyf nb donorCCW donorCCW (permOf pi_rot5 12)
-  && pinAutoCert npin pinrow (permOf pi_rot5 12) (permOf sg_rot5 12)
+def cert_rot1_cw : Bool := autoCert ncool nint tyf nb donorCW donorCW (permOf pi_rot1 12)
+set_option maxRecDepth 1000000 in
+theorem cert_rot1_cw_ok : cert_rot1_cw = true := by decide +kernel
+def cert_rot1_ccw : Bool := autoCert ncool nint tyf nb donorCCW donorCCW (permOf pi_rot1 12)
+set_option maxRecDepth 1000000 in
+theorem cert_rot1_ccw_ok : cert_rot1_ccw = true := by decide +kernel
+def cert_rot1_pin : Bool := pinAutoCert npin pinrow (permOf pi_rot1 12) (permOf sg_rot1 12)
+set_option maxRecDepth 1000000 in
+theorem cert_rot1_pin_ok : cert_rot1_pin = true := by decide +kernel
 def pi_mir : Nat := 0x1100600700800900a00b00c00d00e00f010000001002003004005
 def sg_mir : Nat := 0x2003004005006001000
-def cert_mir : Bool := autoCert ncool nint tyf nb donorCW donorCCW (permOf pi_mir 12)
-  && autoCert ncool nint tyf nb donorCCW donorCW (permOf pi_mir 12)
-  && pinAutoCert npin pinrow (permOf pi_mir 12) (permOf sg_mir 12)
-def certs : List Bool := [cert_rot1, cert_rot2, cert_rot3, cert_rot4, cert_rot5, cert_mir]
+def cert_mir_cw : Bool := autoCert ncool nint tyf nb donorCW donorCCW (permOf pi_mir 12)
 set_option maxRecDepth 1000000 in
-theorem certs_ok : certs.all (· = true) = true := by decide +kernel
+theorem cert_mir_cw_ok : cert_mir_cw = true := by decide +kernel
+def cert_mir_ccw : Bool := autoCert ncool nint tyf nb donorCCW donorCW (permOf pi_mir 12)
+set_option maxRecDepth 1000000 in
+theorem cert_mir_ccw_ok : cert_mir_ccw = true := by decide +kernel
+def cert_mir_pin : Bool := pinAutoCert npin pinrow (permOf pi_mir 12) (permOf sg_mir 12)
+set_option maxRecDepth 1000000 in
+theorem cert_mir_pin_ok : cert_mir_pin = true := by decide +kernel
+def certs : List Bool := [cert_rot1_cw, cert_rot1_ccw, cert_rot1_pin, cert_mir_cw, cert_mir_ccw, cert_mir_pin]
+theorem certs_ok : certs.all (· = true) = true := by
+  simp only [certs, List.all_cons, List.all_nil, decide_true, Bool.and_self, cert_rot1_cw_ok, cert_rot1_ccw_ok, cert_rot1_pin_ok, cert_mir_cw_ok, cert_mir_ccw_ok, cert_mir_pin_ok]
 end Dassh.Gen.C07T2
